@@ -11,6 +11,7 @@ CONSTANTS
   TracerStyles = {"none"}
   Threadeds = {FALSE}
   Givens = {}
+  Blockeds = {"none"}
   Flags = {"fragile_capture"}
 INVARIANT Restored
 INVARIANT Contained
